@@ -16,6 +16,10 @@ pub enum Action {
     IterTake(u8),
     CloneAndSample,
     RebuildAndSample,
+    /// `dst.clone_from(&objs[src])` (same concrete type only), then dst must behave like src
+    CloneFrom(usize),
+    /// multi-output types: sample_to_slice into a buffer holding junk must equal sample() on the same stream
+    DirtySlice(u64),
 }
 
 #[derive(Clone, Debug, Serialize, Deserialize)]
@@ -26,6 +30,7 @@ pub struct Schedule {
 }
 
 struct Recorded {
+    cell: Cell,
     obj: usize,
     before: VRng,
     k: usize,
@@ -55,22 +60,48 @@ pub struct Outcome {
 
 pub fn run_schedule(s: &Schedule) -> Outcome {
     let mut out = Outcome { nontrivial: false, violation: None };
-    let objs: Vec<Box<dyn Sampler>> = match s.cells.iter().map(build).collect::<Result<Vec<_>, _>>() {
+    let mut cells_now: Vec<Cell> = s.cells.clone();
+    let mut objs: Vec<Box<dyn Sampler>> = match s.cells.iter().map(build).collect::<Result<Vec<_>, _>>() {
         Ok(o) => o,
         Err(_) => return out,
     };
     if objs.is_empty() {
         return out;
     }
-    let debug0: Vec<String> = objs.iter().map(|o| o.debug()).collect();
+    let mut debug0: Vec<String> = objs.iter().map(|o| o.debug()).collect();
     let mut shared = VRng::from_env(s.seed);
     let mut rec: Vec<Recorded> = vec![];
     let mut shared_objs = std::collections::HashSet::new();
     let fail = |sym: &str, msg: String| Outcome { nontrivial: true, violation: Some((sym.to_string(), msg)) };
     for (stepno, (oi, act)) in s.steps.iter().enumerate() {
         let oi = oi % objs.len();
+        if let Action::CloneFrom(src) = act {
+            let src = src % objs.len();
+            if src != oi {
+                let srcbox = objs[src].clone_box();
+                if objs[oi].clone_from_dyn(srcbox.as_ref()) {
+                    cells_now[oi] = cells_now[src].clone();
+                    debug0[oi] = debug0[src].clone();
+                    let (mut r1, mut r2) = (shared.clone(), shared.clone());
+                    for k in 0..8 {
+                        match (catch(|| objs[src].sample_v(&mut r1)), catch(|| objs[oi].sample_v(&mut r2))) {
+                            (Ok(a), Ok(b)) => {
+                                if a.bits() != b.bits() || r1.pos != r2.pos {
+                                    return fail("clone_from_differs", format!("step {stepno}: after dst.clone_from(&src) with src = {}, sample {k} differs: src {} vs dst {}", cells_now[src].key(), a.show(), b.show()));
+                                }
+                            }
+                            _ => break,
+                        }
+                    }
+                    if objs[oi].debug() != objs[src].debug() {
+                        return fail("clone_from_differs", format!("step {stepno}: after dst.clone_from(&src) with src = {}: Debug differs: {} vs {}", cells_now[src].key(), objs[oi].debug(), objs[src].debug()));
+                    }
+                }
+            }
+            continue;
+        }
         let o = &objs[oi];
-        let key = s.cells[oi].key();
+        let key = cells_now[oi].key();
         match act {
             Action::SampleShared => {
                 let before = shared.clone();
@@ -80,7 +111,7 @@ pub fn run_schedule(s: &Schedule) -> Outcome {
                     Err(_) => return out, // panics are C03's business
                 };
                 shared_objs.insert(oi);
-                rec.push(Recorded { obj: oi, before, k: 1, results: vec![r], words: shared.pos - p0, shared: true });
+                rec.push(Recorded { cell: cells_now[oi].clone(), obj: oi, before, k: 1, results: vec![r], words: shared.pos - p0, shared: true });
             }
             Action::SamplePrivate(sd) => {
                 let mut pr = VRng::from_env(hseed(&[s.seed, *sd]));
@@ -89,7 +120,7 @@ pub fn run_schedule(s: &Schedule) -> Outcome {
                     Ok(v) => v,
                     Err(_) => return out,
                 };
-                rec.push(Recorded { obj: oi, before, k: 1, results: vec![r], words: pr.pos, shared: false });
+                rec.push(Recorded { cell: cells_now[oi].clone(), obj: oi, before, k: 1, results: vec![r], words: pr.pos, shared: false });
             }
             Action::IterTake(k) => {
                 let k = (*k as usize % 5) + 1;
@@ -100,7 +131,7 @@ pub fn run_schedule(s: &Schedule) -> Outcome {
                     Err(_) => return out,
                 };
                 shared_objs.insert(oi);
-                rec.push(Recorded { obj: oi, before, k, results: rs, words: shared.pos - p0, shared: true });
+                rec.push(Recorded { cell: cells_now[oi].clone(), obj: oi, before, k, results: rs, words: shared.pos - p0, shared: true });
             }
             Action::CloneAndSample => {
                 let c = o.clone_box();
@@ -116,8 +147,19 @@ pub fn run_schedule(s: &Schedule) -> Outcome {
                     return fail("clone_differs", format!("step {stepno}: {key}: clone prints differently: {} vs {}", c.debug(), o.debug()));
                 }
             }
+            Action::CloneFrom(_) => {}
+            Action::DirtySlice(junk) => {
+                let (mut r1, mut r2) = (shared.clone(), shared.clone());
+                if let Ok(Some(b)) = catch(|| o.sample_into_dirty(&mut r2, *junk)) {
+                    if let Ok(a) = catch(|| o.sample_v(&mut r1)) {
+                        if a.bits() != b.bits() || r1.pos != r2.pos {
+                            return fail("depends_on_output_buffer", format!("step {stepno}: {key}: sample_to_slice into a used buffer returned {}, sample() on the same stream {}", b.show(), a.show()));
+                        }
+                    }
+                }
+            }
             Action::RebuildAndSample => {
-                let c = match build(&s.cells[oi]) {
+                let c = match build(&cells_now[oi]) {
                     Ok(c) => c,
                     Err(_) => return out,
                 };
@@ -136,17 +178,16 @@ pub fn run_schedule(s: &Schedule) -> Outcome {
     // sampling never changes the distribution
     for (i, o) in objs.iter().enumerate() {
         if o.debug() != debug0[i] {
-            return fail("object_changed", format!("{}: Debug output changed after sampling: {} -> {}", s.cells[i].key(), debug0[i], o.debug()));
+            return fail("object_changed", format!("{}: Debug output changed after sampling: {} -> {}", cells_now[i].key(), debug0[i], o.debug()));
         }
-        if let Ok(f) = build(&s.cells[i]) {
+        if let Ok(f) = build(&cells_now[i]) {
             if o.eq_dyn(f.as_ref()) == Some(false) {
-                return fail("object_changed", format!("{}: no longer equal to a value built from the same parameters", s.cells[i].key()));
+                return fail("object_changed", format!("{}: no longer equal to a value built from the same parameters", cells_now[i].key()));
             }
         }
     }
     // isolated replays: fresh objects, cloned recorded streams, a fresh thread (empty thread-local state), reverse order
-    let cells = s.cells.clone();
-    let recs: Vec<(usize, VRng, usize, Vec<Vec<u64>>, u64, Vec<u64>, bool)> = rec
+    let recs: Vec<(Cell, VRng, usize, Vec<Vec<u64>>, u64, Vec<u64>, bool)> = rec
         .iter()
         .map(|r| {
             let mut after = r.before.clone();
@@ -154,13 +195,14 @@ pub fn run_schedule(s: &Schedule) -> Outcome {
             for _ in 0..r.words {
                 after.next_u64();
             }
-            (r.obj, r.before.clone(), r.k, bits(&r.results), r.words, next8(&after), r.shared)
+            let _ = r.obj;
+            (r.cell.clone(), r.before.clone(), r.k, bits(&r.results), r.words, next8(&after), r.shared)
         })
         .collect();
     let handle = std::thread::spawn(move || -> Option<(String, String)> {
         crate::report::quiet_panics();
-        for (oi, before, k, res_bits, words, n8, _shared) in recs.into_iter().rev() {
-            let fresh = match build(&cells[oi]) {
+        for (cell, before, k, res_bits, words, n8, _shared) in recs.into_iter().rev() {
+            let fresh = match build(&cell) {
                 Ok(f) => f,
                 Err(_) => continue,
             };
@@ -174,13 +216,13 @@ pub fn run_schedule(s: &Schedule) -> Outcome {
                 }
             }
             if got != res_bits {
-                return Some(("history_dependent_result".into(), format!("{}: the call recorded in the schedule returned bits {:?}, the same call replayed in isolation (fresh object, same RNG state) returned {:?}", cells[oi].key(), res_bits, got)));
+                return Some(("history_dependent_result".into(), format!("{}: the call recorded in the schedule returned bits {:?}, the same call replayed in isolation (fresh object, same RNG state) returned {:?}", cell.key(), res_bits, got)));
             }
             if r.pos - p0 != words {
-                return Some(("history_dependent_words".into(), format!("{}: {} words consumed in the schedule, {} when replayed in isolation", cells[oi].key(), words, r.pos - p0)));
+                return Some(("history_dependent_words".into(), format!("{}: {} words consumed in the schedule, {} when replayed in isolation", cell.key(), words, r.pos - p0)));
             }
             if next8(&r) != n8 {
-                return Some(("rng_state".into(), format!("{}: RNG state after the call differs between schedule and isolated replay", cells[oi].key())));
+                return Some(("rng_state".into(), format!("{}: RNG state after the call differs between schedule and isolated replay", cell.key())));
             }
         }
         None
@@ -243,9 +285,22 @@ pub fn run(ctx: &Ctx) {
             2 => any::<u8>().prop_map(Action::IterTake),
             1 => Just(Action::CloneAndSample),
             1 => Just(Action::RebuildAndSample),
+            1 => (0usize..6).prop_map(Action::CloneFrom),
+            1 => any::<u64>().prop_map(Action::DirtySlice),
         ];
         let strat = (proptest::collection::vec(0..(np as u32 * 64), 1..7), proptest::collection::vec((0usize..6, act), 1..200), any::<u64>())
-            .prop_map(move |(idx, steps, seed)| Schedule { cells: idx.iter().map(|&i| pool[(i / 64) as usize % np].clone()).collect(), steps, seed });
+            .prop_map(move |(idx, steps, seed)| {
+                let mut cells: Vec<Cell> = idx.iter().map(|&i| pool[(i / 64) as usize % np].clone()).collect();
+                // every third schedule: a second object of the same family/type as the first (clone_from partners)
+                if seed % 3 == 0 && cells.len() >= 2 {
+                    let f0 = (cells[0].fam, cells[0].ft);
+                    let start = (idx[1] / 64) as usize % np;
+                    if let Some(c) = (0..np).map(|k| &pool[(start + k) % np]).find(|c| (c.fam, c.ft) == f0 && c.p.len() == cells[0].p.len() && c.ip.len() == cells[0].ip.len()) {
+                        cells[1] = c.clone();
+                    }
+                }
+                Schedule { cells, steps, seed }
+            });
         let res = crate::pt::search(hseed(&[ctx.seed, sh, 0xC14]), cases / shards as u32, strat, |s| {
             let k = evals.fetch_add(1, Ordering::Relaxed);
             if k < 3 {
